@@ -88,10 +88,20 @@ func main() {
 	}
 
 	var projs []*project
+	only := os.Getenv("VERIF_C18_PROJECTS") // development aid: comma separated project names
 	for _, p := range projects() {
+		if only != "" {
+			if strings.Contains(","+only+",", ","+p.Name+",") {
+				projs = append(projs, p)
+			}
+			continue
+		}
 		if !quick || p.Quick {
 			projs = append(projs, p)
 		}
+	}
+	if only != "" {
+		fmt.Printf("note: VERIF_C18_PROJECTS=%s restricts this run (not the registered space)\n", only)
 	}
 	nw := runtime.NumCPU()
 	if nw > 16 {
@@ -362,7 +372,7 @@ func main() {
 	c.Cov["states"] = len(states)
 	c.Cov["transitions"] = execs
 	c.Cov["traces_validated_against_impl"] = compared
-	c.Cov["exhaustive"] = exhaustive
+	c.Cov["exhaustive"] = exhaustive && only == ""
 	if len(incomplete) > 0 {
 		c.Cov["incomplete"] = incomplete
 	}
